@@ -338,11 +338,18 @@ def apply_op(topo, flavour, op):
         raise ValueError('unknown op kind %r' % (kind,))
 
 
-def new_topology(flavour):
+def new_topology(flavour, store=None):
+    """store = None: the default in-memory store (one shared networkx graph); 'disjoint': the per-graph in-memory store
+    Topology.__init__ also accepts (NetworkXGraphImporterDisjoint) -- same API, same model"""
     f, _, _ = _imports()
     from fim.graph.networkx_property_graph import NetworkXGraphImporter
     NetworkXGraphImporter().delete_all_graphs()
     _STATE['tag'], _STATE['k'], _STATE['drawn'] = 0, 0, None
+    if store == 'disjoint':
+        from fim.graph.networkx_property_graph_disjoint import NetworkXGraphImporterDisjoint
+        imp = NetworkXGraphImporterDisjoint()
+        imp.delete_all_graphs()
+        return f.ExperimentTopology(importer=imp) if flavour == 'exp' else f.SubstrateTopology(importer=imp)
     return f.ExperimentTopology() if flavour == 'exp' else f.SubstrateTopology()
 
 
@@ -395,7 +402,7 @@ def step(topo, flavour, op, want_views=True):
 def run_history(case, want_views=True):
     logging.disable(logging.CRITICAL)
     with patched_uuid():
-        topo = new_topology(case['flavour'])
+        topo = new_topology(case['flavour'], case.get('store'))
         steps = []
         for op in case['ops']:
             steps.append(step(topo, case['flavour'], op, want_views))
